@@ -9,6 +9,7 @@ package absnfs
 import (
 	"bytes"
 	"encoding/binary"
+	"hash/fnv"
 	"io"
 	"os"
 	"path"
@@ -105,6 +106,14 @@ func (h *NFSProcedureHandler) handleCreate(body io.Reader, reply *RPCReply, auth
 	// that created the file (same verifier), UNCHECKED leaves the data of an
 	// existing regular file alone and applies only what sattr3 explicitly sets.
 	targetPath := path.Join(node.path, name)
+	// The existence check and the creation that follows it are one step per name:
+	// two GUARDED or EXCLUSIVE creates of one name (what clients build lock files
+	// from) must not both find the name absent and both be answered NFS3_OK.
+	nameHash := fnv.New32a()
+	nameHash.Write([]byte(targetPath))
+	createMu := &h.server.handler.createMu[nameHash.Sum32()%uint32(len(h.server.handler.createMu))]
+	createMu.Lock()
+	defer createMu.Unlock()
 	if existing, lerr := h.server.handler.fs.Lstat(targetPath); lerr == nil {
 		existsReply := func() (*RPCReply, error) {
 			var buf bytes.Buffer
